@@ -13,7 +13,17 @@
     program's): valuing the fresh leaves by the outputs of the real operation makes the recorded samples
     genuine and the recorded constraints true, and conversely what was recorded characterises the real
     operation.  The remaining theorems are the mathematics used (first-order optimality of the prox,
-    Fermat's rule, normal cones, Bregman steps, conjugates, the primal-dual gap). *)
+    Fermat's rule, normal cones, Bregman steps, conjugates, the primal-dual gap).
+
+    Magnitudes.  Every theorem below is for EVERY rational step size / accuracy [gamma], [eps] : Q and every
+    coefficient of the start points (arbitrarily tiny, e.g. 2^-60 or the float nearest to 1e-9, arbitrarily huge,
+    zero, negative): the model prunes a coefficient only when it is exactly 0 ([Dict.prune], [nonzero]), so
+    [x = x0 - gamma gx] keeps its [gamma] coordinate however small.  Nothing in the proofs depends on a magnitude.
+    What ties this to the code is the correspondence stream (harness/p_c08.py), which therefore draws step sizes,
+    accuracies and coefficients from tiny (2^-30 .. 2^-60, 1e-9-like decimals given to the model as exact
+    rationals), moderate and huge (2^40) values and compares the decompositions of the RETURNED objects and of the
+    triplets RECORDED on the functions exactly: a coefficient that vanishes in the implementation (a tolerance in a
+    pruning step, say) is a concrete mismatch. *)
 From Coq Require Import List QArith Reals Qreals Lra Psatz String.
 From PV Require Import Base.IPS Model.Dict Model.Terms Model.StepsRT Gen.Steps Spec.Sem Spec.Classes Spec.StepsSpec
                        Proofs.DictLemmas Proofs.SemLemmas Proofs.C08Lemmas Proofs.C08Records Proofs.C08Real Proofs.C08Examples.
@@ -200,7 +210,10 @@ Theorem C08_inexact_proximal_step_dispatch :
 Proof. exact (inexact_proximal_step_dispatch ). Qed.
 Print Assumptions C08_inexact_proximal_step_dispatch.
 
-(** ** Real executions *)
+(** ** Real executions
+    (the optimality lemmas of the line search and of the two Bregman steps used by the [_real] theorems are
+    Proofs/C08Real.v: linesearch_orthogonality / _converse, bregman_gradient_optimality / _converse,
+    bregman_prox_optimality / _converse; their content is restated inside the [_real] theorems) *)
 Theorem C08_prox_optimality {E : ips} (F : @fn E) gamma x0 x :
   convex_fn F -> 0 < gamma -> is_prox F gamma x0 x ->
   subgrad F x (vscal (1 / gamma) (vsub x0 x)).
@@ -262,18 +275,6 @@ Theorem C08_fermat_line {E : ips} (F : @dfn E) x d :
 Proof. exact (fermat_line F x d). Qed.
 Print Assumptions C08_fermat_line.
 
-Theorem C08_linesearch_orthogonality {E : ips} (F : @dfn E) x0 ds x :
-  gateaux F -> dfn_ext F -> is_linesearch F x0 ds x ->
-  (forall d, In d ds -> inner (dgrad F x) d = 0) /\ inner (dgrad F x) (vsub x x0) = 0.
-Proof. exact (linesearch_orthogonality F x0 ds x). Qed.
-Print Assumptions C08_linesearch_orthogonality.
-
-Theorem C08_linesearch_converse {E : ips} (F : @dfn E) x0 ds x :
-  grad_convex F -> in_span (vsub x x0) ds ->
-  (forall d, In d ds -> inner (dgrad F x) d = 0) -> is_linesearch F x0 ds x.
-Proof. exact (linesearch_converse F x0 ds x). Qed.
-Print Assumptions C08_linesearch_converse.
-
 Theorem C08_exact_linesearch_step_real x0 f dirs s out :
   state_below s -> below (pt_ctr s) x0 -> Forall (below (pt_ctr s)) dirs ->
   exact_linesearch_step_spec x0 f dirs s out ->
@@ -322,17 +323,6 @@ Theorem C08_linear_optimization_step_real dir ind s out :
 Proof. exact (linear_optimization_step_real dir ind s out). Qed.
 Print Assumptions C08_linear_optimization_step_real.
 
-Theorem C08_bregman_gradient_optimality {E : ips} (H : @dfn E) gamma g0 s0 x :
-  gateaux H -> is_bregman_gradient H gamma g0 s0 x ->
-  veq (dgrad H x) (vsub s0 (vscal gamma g0)).
-Proof. exact (bregman_gradient_optimality H gamma g0 s0 x). Qed.
-Print Assumptions C08_bregman_gradient_optimality.
-
-Theorem C08_bregman_gradient_converse {E : ips} (H : @dfn E) gamma g0 s0 x :
-  grad_convex H -> veq (dgrad H x) (vsub s0 (vscal gamma g0)) -> is_bregman_gradient H gamma g0 s0 x.
-Proof. exact (bregman_gradient_converse H gamma g0 s0 x). Qed.
-Print Assumptions C08_bregman_gradient_converse.
-
 Theorem C08_bregman_gradient_step_real gx0 sx0 h gamma s out :
   below (pt_ctr s) gx0 -> below (pt_ctr s) sx0 -> bregman_gradient_step_spec gx0 sx0 h gamma s out ->
   let n := pt_ctr s in let m := ex_ctr s in
@@ -347,18 +337,6 @@ Theorem C08_bregman_gradient_step_real gx0 sx0 h gamma s out :
           is_bregman_gradient H (Q2R gamma) (evalP rho gx0) (evalP rho sx0) (rho n)).
 Proof. exact (bregman_gradient_step_real gx0 sx0 h gamma s out). Qed.
 Print Assumptions C08_bregman_gradient_step_real.
-
-Theorem C08_bregman_prox_optimality {E : ips} (F : @fn E) (H : @dfn E) gamma s0 x :
-  convex_fn F -> gateaux H -> 0 < gamma -> is_bregman_prox F H gamma s0 x ->
-  subgrad F x (vscal (1 / gamma) (vsub s0 (dgrad H x))).
-Proof. exact (bregman_prox_optimality F H gamma s0 x). Qed.
-Print Assumptions C08_bregman_prox_optimality.
-
-Theorem C08_bregman_prox_converse {E : ips} (F : @fn E) (H : @dfn E) gamma s0 x g :
-  grad_convex H -> 0 <= gamma -> subgrad F x g -> veq (dgrad H x) (vsub s0 (vscal gamma g)) ->
-  is_bregman_prox F H gamma s0 x.
-Proof. exact (bregman_prox_converse F H gamma s0 x g). Qed.
-Print Assumptions C08_bregman_prox_converse.
 
 Theorem C08_bregman_proximal_step_real sx0 h f gamma s out :
   below (pt_ctr s) sx0 -> bregman_proximal_step_spec sx0 h f gamma s out ->
